@@ -58,10 +58,14 @@ def load_cases():
     props = {meta.get('property') or sid.split('_')[0]}
     fns = meta.get('first_not_silent') or {}
     props |= {k for k in fns if isinstance(k, str) and k[:1] == 'C'}
-    for prop in sorted(p_ for p_ in props if p_):
+    # refactorings on which a check is known to raise a false alarm still
+    # (DESIGN.md 8b): run, reported as OPEN, not counted as a failure of the
+    # self-test - and reported if they turn silent
+    still_open = set(meta.get('open_false_alarm') or [])
+    for prop in sorted(p_ for p_ in props | still_open if p_):
       cases.append(dict(id=f'benign-{sid}-{prop}', prop=prop, expect='silent',
                         patch=os.path.join(os.path.dirname(mp), 'patch.diff'),
-                        edits=[]))
+                        edits=[], open=prop in still_open))
   ids = [c['id'] for c in cases]
   dup = {i for i in ids if ids.count(i) > 1}
   if dup:
@@ -173,9 +177,12 @@ def main():
   results = []
   with concurrent.futures.ThreadPoolExecutor(max_workers=a.j) as ex:
     for case, status, msg in ex.map(lambda c: run_case(c, a.keep), cases):
+      if case.get('open'):
+        status, msg = ('OPEN', msg) if status != 'PASS' else (
+            'PASS', 'listed as an open false alarm but silent now')
       results.append((case, status, msg))
       print(f'{status:11s} {case["prop"]} {case["expect"]:9s} {case["id"]}')
-      if status != 'PASS':
+      if status not in ('PASS', 'OPEN'):
         print('   ' + msg.replace('\n', '\n   '))
   if a.normalised:
     props = sorted({c['prop'] for c in load_cases()})
@@ -190,7 +197,10 @@ def main():
       else:
         results.append(({'id': 'normalised', 'prop': prop, 'expect': 'silent'},
                         'PASS', ''))
-  bad = [r for r in results if r[1] != 'PASS']
+  bad = [r for r in results if r[1] not in ('PASS', 'OPEN')]
+  n_open = sum(1 for r in results if r[1] == 'OPEN')
+  if n_open:
+    print(f'selftest: {n_open} case(s) are known open false alarms')
   n_v = sum(1 for c, s, _ in results if c['expect'] == 'violation')
   n_s = len(results) - n_v
   print(f'selftest: {len(results)} cases ({n_v} breaking, {n_s} benign), '
